@@ -977,3 +977,32 @@ INGEST_TABLE: dict[str, list[tuple]] = {
          [("cmp", _UNREACH, "In", "P:graph.nodes", "1")], [], ""),
     ],
 }
+
+
+# ---- partial merge: when it applies and what it removes from the diagram
+_KILLHERE = "P:self.loop_kill_paths[P:self.merge_nodes.index(P:merge_node)]"
+_IDX = ("[each(enumerate(P:self.merge_nodes))[0] for.. if (P:merge_node Eq "
+        "each(enumerate(P:self.merge_nodes))[1])]")
+_APPLIES = ("any", (("truth", _KILLHERE, "1"),
+                    ("truth", "any(P:self.loop_kill_paths)", "0")), "1")
+_TWO = ("cmp", f"len({_IDX})", "Lt", "2", "0")
+MERGE_TABLE: dict[str, list[tuple]] = {
+    "LogicBlockHolder.create_logic_merge": [
+        ("normal paths are not merged while a kill path of the block is "
+         "still open", "ret", "", "", ("set()",),
+         [("truth", _KILLHERE, "0"),
+          ("truth", "any(P:self.loop_kill_paths)", "1")], [], ""),
+        ("fewer than two paths at the node: nothing to merge", "ret", "", "",
+         ("set()",), [_APPLIES, ("cmp", f"len({_IDX})", "Lt", "2", "1")], [],
+         ""),
+        ("everything the merging paths have drawn behind the block's start "
+         "(every node on every simple path from the start to the tip of "
+         "each merging path, the start excluded) is handed back for "
+         "removal", "call", "add", "set()",
+         (f"each(each(all_simple_paths(P:puml_graph,P:self.start_node,each("
+          f"[P:self.puml_nodes[each({_IDX})] for..])))[1:])",),
+         [_APPLIES, _TWO], [], ""),
+        ("that set is the result", "bind", "ret[0]", "", ("set()",),
+         [_APPLIES, _TWO], [], ""),
+    ],
+}
